@@ -108,6 +108,12 @@ class SpecEvalMixin:
             return Eq(a.t, self.seq_items(st, b))
         if isinstance(a, VPy) and isinstance(b, VPy):
             return TRUE if (a.what, a.obj) == (b.what, b.obj) else FALSE
+        if (isinstance(a, VAny) and isinstance(b, VPy)) or (isinstance(b, VAny) and isinstance(a, VPy)):
+            # an opaque runtime value compared with a named external constant (e.g. errno.EAGAIN): undetermined
+            any_, py = (a, b) if isinstance(a, VAny) else (b, a)
+            import re as _re
+            nm = "extc$" + _re.sub(r"[^A-Za-z0-9_]", "_", str(py.obj))
+            return Eq(any_.t, self.decls.const(nm, INT))
         if hasattr(a, "t") and hasattr(b, "t"):
             if a.t.sort != b.t.sort:
                 if {a.t.sort, b.t.sort} == {INT, REAL}:
